@@ -465,6 +465,24 @@ fn mutate_fields(o: &mut Out, r: &mut Rng, instr: &str, wit: &str, scalar_fields
     }
 }
 
+/// statements in which some point field is *legitimately* the identity (all-zero bytes): every other special
+/// encoding in that field — undecodable, non-canonical, another encoding a careless decoder might map to the
+/// identity — must be refused although the proof was made for the identity
+pub fn identity_field_specials(o: &mut Out, instr: &str, wit: &str, fields: &[usize]) {
+    let a: Vec<&str> = wit.split_whitespace().collect();
+    let Some(Ok(bytes)) = construct(instr, &a) else { return };
+    o.op_exp(&format!("{}.identity-field.accepted", instr), "A", &format!("verify {} {}", instr, hex(&bytes)));
+    for &f in fields {
+        if bytes[f..f + 32].iter().any(|b| *b != 0) { continue; }
+        for (_, v) in special_values().iter() {
+            if v.iter().all(|b| *b == 0) { continue; }
+            let mut m = bytes.clone();
+            m[f..f + 32].copy_from_slice(v);
+            o.op_exp(&format!("{}.identity-field.special", instr), "R", &format!("verify {} {}", instr, hex(&m)));
+        }
+    }
+}
+
 pub fn gen_c01(o: &mut Out, tier: &str, seed: u64) {
     let mut r = Rng::new(seed, "c01");
     let reps = if tier == "thorough" { 25 } else { 2 };
@@ -483,6 +501,15 @@ pub fn gen_c01(o: &mut Out, tier: &str, seed: u64) {
         mutate_fields(o, &mut r, "ctct", &st.wit(), &[320, 352, 384], &[0, 32, 64, 96, 128, 160, 192, 224, 256, 288], th);
         let st = ctcmt_st(&mut r, a, a);
         mutate_fields(o, &mut r, "ctcmt", &st.wit(), &[224, 256, 288], &[0, 32, 64, 96, 128, 160, 192], th);
+    }
+    // ct-ct equality with the permitted identity second ciphertext (amount 0 under the zero opening)
+    {
+        let mut z = ctct_st(&mut r, 0, 0);
+        z.c2 = RistrettoPoint::identity();
+        z.d2 = RistrettoPoint::identity();
+        z.r = Scalar::ZERO;
+        identity_field_specials(o, "ctct", &z.wit(), &[128, 160]);
+        // zero-ciphertext statement whose handle is the identity cannot be accepted; its commitment-only variant is covered above
     }
 }
 
@@ -603,6 +630,18 @@ fn val_family(o: &mut Out, r: &mut Rng, n: usize, batched: bool) {
 pub fn gen_c02(o: &mut Out, tier: &str, seed: u64) {
     let mut r = Rng::new(seed, "c02");
     let th = tier == "thorough";
+    // the permitted "no auditor" statements: last key and last handle(s) are the identity; any other special
+    // encoding in those fields must be refused
+    for n in [2usize, 3] {
+        let mut ps: Vec<RistrettoPoint> = (0..n).map(|_| kp(&mut r).p).collect();
+        ps[n - 1] = RistrettoPoint::identity();
+        let a = amount(&mut r);
+        let s = val_st(&mut r, n, a, Some(ps.clone()));
+        // key field of the auditor, its handle
+        identity_field_specials(o, &format!("val{}", n), &s.wit(), &[32 * (n - 1), 32 * n + 32 * n]);
+        let s = bval_st(&mut r, n, a, 7, Some(ps));
+        identity_field_specials(o, &format!("bval{}", n), &s.wit(), &[32 * (n - 1), 32 * n + 32 * n, 32 * n + 32 * (n + 1) + 32 * n]);
+    }
     let reps = if th { 12 } else { 1 };
     for _ in 0..reps {
         for (n, b) in [(2, false), (3, false), (2, true), (3, true)] {
